@@ -516,7 +516,7 @@ def _number_function_spelling(chk):
     big = [5, -7, 0, 1000, 123456789012345, 2 ** 53 + 2, 10 ** 15 + 1, -(2 ** 53) - 2, 999999999999999]
     cases = []
     for x in big:
-        for d in (0, 2, 3):
+        for d in (0, 1, 2, 3, 8, 9, 12, 17):          # digit counts on both sides of any table of common counts
             cases.append(('numberToFixed', [x, d]))
             cases.append(('mathRound', [x, d]))
         for fn in ('mathAbs', 'mathFloor', 'mathCeil', 'mathSign', 'stringNew', 'numberToFixed', 'mathRound'):
